@@ -501,8 +501,11 @@ fn stmt_to_asg_stmt(stmt: synast::Stmt, context: &mut Context) -> Option<asg::St
         }
 
         synast::Stmt::Barrier(barrier) => {
-            let gate_operands = qubit_list_to_asg_texpr(barrier.qubit_list(), context);
-            Some(asg::Stmt::Barrier(asg::Barrier::new(Some(gate_operands))))
+            // `barrier;` with no operands is represented by `None`.
+            let gate_operands = barrier
+                .qubit_list()
+                .map(|qubit_list| qubit_list_to_asg_texpr(Some(qubit_list), context));
+            Some(asg::Stmt::Barrier(asg::Barrier::new(gate_operands)))
         }
 
         synast::Stmt::DelayStmt(delay_stmt) => {
@@ -631,13 +634,11 @@ fn expr_stmt_to_asg_stmt(expr_stmt: synast::ExprStmt, context: &mut Context) -> 
             Some(asg::Stmt::GPhaseCall(asg::GPhaseCall::new(arg)))
         }
 
-        syn_expr => {
-            let expr = expr_to_asg_texpr(syn_expr, context);
-            expr.map_or_else(
-                || panic!("expr::ExprStmt is None. Expression not implemented in the ASG."),
-                |ex| Some(asg::Stmt::ExprStmt(ex)),
-            )
-        }
+        syn_expr => match expr_to_asg_texpr(syn_expr, context) {
+            Some(ex) => Some(asg::Stmt::ExprStmt(ex)),
+            // Expression not implemented in the ASG, eg. a tuple.
+            None => not_impl!(context, expr_stmt),
+        },
     }
 }
 
@@ -938,8 +939,11 @@ fn gate_call_expr_to_asg_stmt(
         None => 0,
     };
     let gate_id = gate_call_expr.identifier();
+    // The name of the gate must be an identifier.
+    let Some(gate_name) = gate_id.as_ref().map(|gate_id| gate_id.string()) else {
+        return not_impl!(context, gate_call_expr);
+    };
     // FIXME: make sure we are efficient with strings
-    let gate_name = gate_call_expr.identifier().unwrap().string();
     let (symbol_result, gate_type) = context
         .lookup_gate_symbol(gate_name.as_ref(), gate_id.as_ref().unwrap())
         .as_tuple();
@@ -1082,13 +1086,14 @@ fn qubit_list_to_asg_texpr(
     qubit_list: Option<synast::QubitList>,
     context: &mut Context,
 ) -> Vec<asg::TExpr> {
-    // Warning, I think map overlooks None. This can cause a bug in the present case.
-    // Because None means a coding error upstream. Better to blow up here.
-    qubit_list
-        .unwrap()
-        .gate_operands()
-        .map(|qubit| gate_operand_to_asg_texpr(qubit, context))
-        .collect()
+    // The list is absent if no operands are written, as in `barrier;`.
+    match qubit_list {
+        Some(qubit_list) => qubit_list
+            .gate_operands()
+            .map(|qubit| gate_operand_to_asg_texpr(qubit, context))
+            .collect(),
+        None => Vec::new(),
+    }
 }
 
 // Return a Vec of TExpr.  There is no reason to return an iterator, because if it were an
@@ -1195,8 +1200,9 @@ fn block_expr_to_asg_type(block_synast: synast::BlockExpr, context: &mut Context
 fn block_or_stmt_to_asg_type(val: oq3_syntax::BlockOrStmt, context: &mut Context) -> asg::Block {
     match val {
         oq3_syntax::BlockOrStmt::BlockExpr(body) => block_expr_to_asg_type(body, context),
+        // Some statements, eg. an annotation, are not translated to a statement in the ASG.
         oq3_syntax::BlockOrStmt::Stmt(stmt) => {
-            asg::Block::new(vec![stmt_to_asg_stmt(stmt, context).unwrap()])
+            asg::Block::new(stmt_to_asg_stmt(stmt, context).into_iter().collect())
         }
     }
 }
@@ -1407,7 +1413,9 @@ fn io_declaration_statement_to_asg_stmt(
     context: &mut Context,
 ) -> asg::Stmt {
     if type_decl.array_type().is_some() {
-        panic!("Array types are not supported yet in the ASG");
+        // Array types are not supported yet in the ASG
+        context.insert_error(NotImplementedError, type_decl);
+        return asg::Stmt::NullStmt;
     }
     let scalar_type = type_decl.scalar_type().unwrap();
     // Assume that input / ouput variables are not constant.
@@ -1568,7 +1576,9 @@ fn bind_typed_parameter_list(
                 } else if param.old_typed_param().is_some() {
                     Type::ToDo
                 } else {
-                    panic!("You have found a bug in oq3_parser")
+                    // Eg. array parameters that are not array references.
+                    context.insert_error(NotImplementedError, &param);
+                    Type::ToDo
                 };
                 let namestr = param.name().unwrap().string();
                 context.new_binding(namestr.as_ref(), &typ, &param)
